@@ -7,7 +7,7 @@ from common import hx
 from props.c02 import boundary_values
 
 ID = "C06"
-LEAN_IMPORTS = ["PyTrie.Props.C06", "PyTrie.Props.C05Batch", "PyTrie.Props.RawLevel", "PyTrie.Props.NonVacuity", "PyTrie.Props.NonVacuity4", "PyTrie.Props.FreeExec", "PyTrie.Props.HistoryBlocks", "PyTrie.Props.NonVacuity9", "PyTrie.Props.C06Refused", "PyTrie.Props.NonVacuity12", "PyTrie.Props.HistoryRefusedFirst"]
+LEAN_IMPORTS = ["PyTrie.Props.C06", "PyTrie.Props.C05Batch", "PyTrie.Props.RawLevel", "PyTrie.Props.NonVacuity", "PyTrie.Props.NonVacuity4", "PyTrie.Props.FreeExec", "PyTrie.Props.HistoryBlocks", "PyTrie.Props.NonVacuity9", "PyTrie.Props.C06Refused", "PyTrie.Props.NonVacuity12", "PyTrie.Props.HistoryRefusedFirst", "PyTrie.Props.HistoryProgress"]
 THEOREMS = [
     "PyTrie.Props.C06.setE_tree",
     "PyTrie.Props.C06.deleteE_tree",
@@ -53,6 +53,7 @@ THEOREMS = [
     "PyTrie.Props.Free.refused_first_step",
     "PyTrie.Props.Free.refused_first_history",
     "PyTrie.Props.Free.refused_first_history_exact",
+    "PyTrie.Props.Free.history_blocks_pruning_exact'",
 ]
 RULE = ("pruning tries started on an empty database and modified only through their own API: histories of "
         "set/delete/set-to-empty/no-op updates and squash_changes blocks (committed and aborted) over prefix-sharing "
